@@ -40,7 +40,7 @@ Operators == {
   Op("table-only-x", "registry"), Op("table-only-y", "registry"), Op("table-three-points", "registry"), Op("table-not-increasing", "registry"),
   Op("table-repeated-x", "registry"), Op("table-empty-data", "registry"), Op("table-not-finite", "registry"), Op("table-empty-name", "registry"),
   Op("table-named-like-library-function", "registry"),
-  Op("form-bad-signature", "registry"), Op("form-dotted-name", "registry"), Op("form-no-parameters", "registry"), Op("form-reserved-parameter", "registry"), Op("form-parameters-differ-in-case", "registry"), Op("form-numeric-parameter", "registry"),
+  Op("form-bad-signature", "registry"), Op("form-dotted-name", "registry"), Op("form-no-parameters", "registry"), Op("form-reserved-parameter", "registry"), Op("form-parameters-differ-in-case", "registry"), Op("form-parameter-repeated", "registry"), Op("form-numeric-parameter", "registry"),
   Op("form-same-label-other-arity", "registry"), Op("form-parameter-named-like-a-form", "registry"), Op("form-label-reserved", "registry"), Op("form-labels-differ-in-case", "registry"),
   Op("form-signature-trailing-text", "registry"),
   Op("missing-pair-section", "pair-builder"), Op("unknown-form", "pair-builder"), Op("unknown-modifier", "pair-builder"), Op("nested-unknown-form", "pair-builder"),
